@@ -279,3 +279,10 @@ Proof.
       intros dk vk Ek Hlt. exfalso. unfold s_get, s_look in G. rewrite Ek in G. cbn in G.
       destruct (Z.ltb_spec now dk); [discriminate|lia].
 Qed.
+
+(* the store condition raising after a successful execution: the exception goes to the caller, nothing is stored, and
+   in particular the stored result is not handed out *)
+Lemma failc_cond_raises m now k ttl id : Z.odd id = true -> failc_call m now k ttl (XOk id) = (m, RRaise 1, true).
+Proof. intro H. unfold failc_call. rewrite H. reflexivity. Qed.
+Lemma failc_otherwise m now k ttl o : (forall id, o = XOk id -> Z.odd id = false) -> failc_call m now k ttl o = fail_call m now k ttl o.
+Proof. intro H. destruct o as [id|e]; [|reflexivity]. unfold failc_call. rewrite (H id eq_refl). reflexivity. Qed.
